@@ -112,7 +112,7 @@ theorem good_bigint {s X : List Char} (hd : AllDig X) (h : X = ['0'] ∨ ∃ c r
     rcases h with e | ⟨c, r, e, hc⟩
     · rw [e]; rfl
     · rw [e]; exact isLegacyLike_cons_ne _ hc
-  refine ⟨?_, ?_, ?_⟩
+  refine ⟨?_, ?_, ?_, ?_, ?_⟩
   · unfold isNumericLiteral
     rw [splitSuffix_snoc]
     simp only
@@ -123,6 +123,13 @@ theorem good_bigint {s X : List Char} (hd : AllDig X) (h : X = ['0'] ∨ ∃ c r
     rw [mathDec_snoc hd.allDS hl, hv, stripSep_of_allDig hd]
   · unfold isBigIntLit at hb ⊢
     rw [splitSuffix_snoc, hb]
+  · rcases h with e | ⟨c, r, e, hc⟩
+    · rw [e]; rfl
+    · rw [e]; exact isLegacyLike_cons_ne _ hc
+  · intro c hc
+    rcases List.mem_append.mp hc with hc | hc
+    · exact digit_ne (hd c hc) (by decide)
+    · simp at hc; rw [hc]; decide
 
 
 theorem radixPrefix_head_ne {c : Char} (r : List Char) (h : c ≠ '0') : radixPrefix (c :: r) = none := by
@@ -350,7 +357,7 @@ theorem radix_keep {s : List Char} {base : Nat} {c : Char} {D : List Char} {big 
     cases big with
     | true => simp only [if_true]; exact splitSuffix_snoc _
     | false => simp only [Bool.false_eq_true, if_false]; exact splitSuffix_no_n hnon
-  refine ⟨?_, ?_, ?_⟩
+  refine ⟨?_, ?_, ?_, ?_, ?_⟩
   · unfold isNumericLiteral
     rw [hsplit]
     simp only
@@ -368,6 +375,28 @@ theorem radix_keep {s : List Char} {base : Nat} {c : Char} {D : List Char} {big 
   · unfold isBigIntLit
     rw [hsplit]
     exact R.big.symm
+  · have hcd : c.isDigit = false := by
+      rcases R.letter with ⟨e | e, _⟩ | ⟨e | e, _⟩ | ⟨e | e, _⟩ <;> subst e <;> decide
+    unfold keepRadix
+    cases big <;> simp only [Bool.false_eq_true, if_false, if_true, List.cons_append] <;> unfold isLegacyLike <;> exact hcd
+  · have hall : ∀ x ∈ '0' :: c :: D, x ≠ '_' := by
+      intro x hx
+      rcases List.mem_cons.mp hx with e | hx
+      · rw [e]; decide
+      · rcases List.mem_cons.mp hx with e | hx
+        · rw [e]; exact hc_
+        · exact (isDigitOf_ne (R.dig x hx)).2
+    unfold keepRadix
+    intro x hx
+    cases big with
+    | true =>
+      simp only [if_true] at hx
+      rcases List.mem_append.mp hx with hx | hx
+      · exact hall x hx
+      · simp at hx; rw [hx]; decide
+    | false =>
+      simp only [Bool.false_eq_true, if_false] at hx
+      exact hall x hx
 
 /-- the literal converted to decimal -/
 theorem radix_finish {s : List Char} {base : Nat} {c : Char} {D : List Char} {big : Bool}
